@@ -221,12 +221,19 @@ def _prog(ctx, p, rng):
         cgs, _ = progs.record(gs, [_rec_operand(rec, xr, rng)])
     except Exception:
         ctx.skip('not-traceable:%s:%s' % (name, rec)); return
-    for ip in range(3):
+    for ip in range(4):
         x = xr.astype(float).copy() if ip == 0 else bs(rng, (n,))
+        intargs = (ip == 3 and dom == 'R')
+        if ip == 3 and not intargs:
+            continue
+        if intargs:
+            x = np.round(2 * x) + (np.round(2 * x) == 0)          # integer-valued point, handed over as an integer array below
         if name != 'comp' and not pr.in_domain([x.reshape(pr.ins[0][0])]):
             ctx.skip('out_of_domain:regularity-condition'); continue
-        where = 'at-recording-point' if ip == 0 else 'away'
+        where = 'at-recording-point' if ip == 0 else ('away-integer-arguments' if intargs else 'away')
         v = rng.normal(size=n); w = rng.normal(size=m)
+        if intargs:
+            v = rng.integers(-3, 4, size=n).astype(float); w = rng.integers(-3, 4, size=m).astype(float)
         try:
             Jf = np.asarray(UTPM.extract_jacobian(g(UTPM.init_jacobian(x.copy())))).reshape(m, n)
             Hs = np.asarray(UTPM.extract_hessian(n, gs(UTPM.init_hessian(x.copy()))))
@@ -244,17 +251,24 @@ def _prog(ctx, p, rng):
             ctx.skip('out_of_domain:ill-conditioned'); continue
         js = np.max(np.abs(Jf)) + 1e-5; hs = np.max(np.abs(Hs)) + js; hw = np.max(np.abs(Hw)) + js      # 1e-5: floor for identically vanishing derivatives (x/x)
         info = {'program': name, 'rec': rec, 'where': where, 'n': n, 'm': m}
+        ity = [np.int64, np.int32, np.int16][int(rng.integers(3))]       # integers of any width
+        xa, va, wa = (x.astype(ity), v.astype(ity), w.astype(ity)) if intargs else (x, v, w)
+        if intargs and rng.random() < 0.35:
+            xa, va, wa = xa.tolist(), va.tolist(), wa.tolist()
+        X_ = lambda: (list(xa) if isinstance(xa, list) else xa.copy())
+        V_ = lambda: (list(va) if isinstance(va, list) else va.copy())
+        W_ = lambda: (list(wa) if isinstance(wa, list) else wa.copy())
         calls = [
-            ('gradient', lambda: cgs.gradient(x.copy()), wts @ Jf, js * np.sum(wts)),
-            ('hessian', lambda: cgs.hessian(x.copy()), Hs, hs),
-            ('hess_vec', lambda: cgs.hess_vec(x.copy(), v.copy()), Hs @ v, hs * np.sum(np.abs(v))),
-            ('jacobian', lambda: np.asarray(cgv.jacobian(x.copy())).reshape(m, n), Jf, js),
-            ('jac_vec', lambda: cgv.jac_vec(x.copy(), v.copy()), Jf @ v, js * np.sum(np.abs(v))),
-            ('vec_jac', lambda: cgv.vec_jac(w.copy(), x.copy()), w @ Jf, js * np.sum(np.abs(w))),
-            ('vec_hess', lambda: cgv.vec_hess(w.copy(), x.copy()), Hw, hw),
+            ('gradient', lambda: cgs.gradient(np.asarray(X_())), wts @ Jf, js * np.sum(wts)),
+            ('hessian', lambda: cgs.hessian(X_()), Hs, hs),
+            ('hess_vec', lambda: cgs.hess_vec(X_(), V_()), Hs @ v, hs * np.sum(np.abs(v))),
+            ('jacobian', lambda: np.asarray(cgv.jacobian(X_())).reshape(m, n), Jf, js),
+            ('jac_vec', lambda: cgv.jac_vec(X_(), V_()), Jf @ v, js * np.sum(np.abs(v))),
+            ('vec_jac', lambda: cgv.vec_jac(W_(), X_()), w @ Jf, js * np.sum(np.abs(w))),
+            ('vec_hess', lambda: cgv.vec_hess(W_(), X_()), Hw, hw),
         ]
         if m == n:
-            calls.append(('vec_hess_vec', lambda: cgv.vec_hess_vec(w.copy(), x.copy(), v.copy()), Hw @ v, hw * np.sum(np.abs(v))))
+            calls.append(('vec_hess_vec', lambda: cgv.vec_hess_vec(W_(), X_(), V_()), Hw @ v, hw * np.sum(np.abs(v))))
         for dname, call, ref, sc in calls:
             mech = 'prog:%s:%s:%s' % (dname, name, where)
             try:
